@@ -89,8 +89,24 @@ fn main() {
                     None => out.observed = "harness-panicked".into(),
                 }
                 sink.line(&format!("{line}\t{}", out.observed));
+                // at most a handful of (distinct-property) oracle lines per case, messages bounded; the case text is not
+                // repeated (an empty case field refers to the case line just printed)
+                let mut printed: Vec<&str> = vec![];
                 for (props, msg) in &out.oracle_failures {
-                    sink.line(&format!("!ORACLE\t{props}\t{line}\t{}", msg.replace(['\t', '\n'], " ")));
+                    if printed.iter().filter(|p| **p == props.as_str()).count() >= 2 || printed.len() >= 8 {
+                        continue;
+                    }
+                    printed.push(props.as_str());
+                    let mut m: String = msg.replace(['\t', '\n'], " ");
+                    if m.len() > 600 {
+                        let mut cut = 600;
+                        while !m.is_char_boundary(cut) {
+                            cut -= 1;
+                        }
+                        m.truncate(cut);
+                        m.push_str(" ...");
+                    }
+                    sink.line(&format!("!ORACLE\t{props}\t\t{m}"));
                 }
             }
             sink.flush();
